@@ -102,11 +102,11 @@ def main(tier):
     for s in samples[:2]:
         c.sample("limitpool lock-step schedule: " + s[:600])
     broken = problems or mism or not stats
-    configs = [(1, 4, 3000), (3, 8, 3000), (0, 4, 500)] if tier == "quick" else [(1, 8, 20000), (2, 16, 20000), (5, 16, 20000), (0, 8, 2000), (64, 32, 20000)]
+    configs = [(1, 4, 3000), (3, 8, 3000), (0, 4, 500), (2147483653, 2, 10)] if tier == "quick" else [(1, 8, 20000), (2, 16, 20000), (5, 16, 20000), (0, 8, 2000), (64, 32, 20000), (2147483653, 4, 100), (4294967296, 2, 10)]
     sbad = stress(c, binary, configs)
     c.cov["limitpool_stress"] = {"configs": configs, "violations": len(sbad)}
     for b in sbad:
-        c.report("C14:limitpool:stress:" + ("highwater" if "high-water" in b["result"] else "conservation" if "quiescence" in b["result"] else "other"),
+        c.report("C14:limitpool:stress:" + ("highwater" if "high-water" in b["result"] else "conservation" if "quiescence" in b["result"] else "large-budget" if "although maxTokens" in b["result"] else "other"),
                  "LimitPool: " + b["result"], dict(kind="stress-run", **b))
     if broken and not sbad:
         # the correspondence no longer holds; search harder before giving up
@@ -131,6 +131,13 @@ def main(tier):
         c.note_case("sk:" + l, len(ops) >= 5 and any(o.startswith(("unlock", "runlock")) for o in ops))
     c.cov["traces_validated_against_impl"] += len(lines) - len(bad)
     c.sample("segkey history: " + lines[0][:300])
+    if rc != 0 and len(impl) < len(lines):
+        i = len(impl)
+        first = next((l for l in err.splitlines() if l.strip()), "")[:200]
+        c.report("C14:segkey:fatal", "SegmentKeysLock: the run-time aborts (%s) on a history of legal lock operations — a lock the specification says is held is not the one being released" % first,
+                 {"kind": "history", "case": lines[i], "stderr": err[:1500], "model": model[i] if i < len(model) else None,
+                  "how": "echo '<case>' | h c14-segkey"})
+        bad = []
     for i in bad[:3]:
         # model output is the exclusion specification itself: shortest failing prefix is the replay
         ops = lines[i].split()
